@@ -392,9 +392,7 @@ theorem inv_step (E : Env) (s : State) (op : Op) (hI : Inv E s) : Inv E (step E 
         simp only [State.stOf, propStep, upd_same, Props.step]
         simp only [State.stOf] at hok
         simp only [hok, if_true]
-        by_cases hin : m ∈ (s.pst (E.cls m)).attached
-        · rw [if_pos hin]; exact hin
-        · rw [if_neg hin]; exact List.mem_cons_self
+        by_cases hin : m ∈ (s.pst (E.cls m)).attached <;> simp [hin]
       · exact ⟨attached_propStep E s n _ m (hI k m hm).1, (hI k m hm).2⟩
   | unexport p =>
     simp only [TreeProps.step] at hm ⊢
@@ -536,5 +534,50 @@ theorem wf_absHistFrom (E : Env) (s : State) (h : List Op)
       exact ih _ hv' o ho
     | assign n a v => exact ih _ hv'
     | set p i pn v => exact ih _ hv'
+
+theorem runFrom_append (E : Env) (s : State) (h : List Op) (op : Op) :
+    runFrom E s (h ++ [op]) = (step E (runFrom E s h) op).state := by
+  induction h generalizing s with
+  | nil => rfl
+  | cons o h ih => simp only [List.cons_append, runFrom]; exact ih _
+
+theorem run_append (E : Env) (h : List Op) (op : Op) : run E (h ++ [op]) = (step E (run E h) op).state :=
+  runFrom_append E State.init h op
+
+/-- The reply fails exactly when the announcement of some selected object cannot be built. -/
+theorem managedReply_none_iff (E : Env) (s : State) (p : Str)
+    (hk : ∀ k ∈ managedKeys p s.exports, (lookup s.exports k).isSome = true) :
+    managedReply E s p = none ↔
+      ∃ k ∈ managedKeys p s.exports, ∃ n, lookup s.exports k = some n ∧ objDict E (s.stOf E n) n = none := by
+  have hsome := mapM_isSome (fun k => (lookup s.exports k).bind fun n => (objDict E (s.stOf E n) n).map fun d => (k, d))
+    (managedKeys p s.exports)
+  unfold managedReply
+  constructor
+  · intro hnone
+    rw [hnone] at hsome
+    have : ¬ ∀ k ∈ managedKeys p s.exports,
+        ((lookup s.exports k).bind fun n => (objDict E (s.stOf E n) n).map fun d => (k, d)).isSome = true := by
+      intro hall
+      have := List.all_eq_true.mpr hall
+      rw [← hsome] at this
+      cases this
+    apply Classical.byContradiction
+    intro hcon
+    apply this
+    intro k hkm
+    cases hl : lookup s.exports k with
+    | none => have := hk k hkm; rw [hl] at this; cases this
+    | some n =>
+      cases hd : objDict E (s.stOf E n) n with
+      | none => exact absurd ⟨k, hkm, n, hl, hd⟩ hcon
+      | some d => simp [hd]
+  · rintro ⟨k, hkm, n, hl, hd⟩
+    cases hm : (managedKeys p s.exports).mapM
+        (fun k => (lookup s.exports k).bind fun n => (objDict E (s.stOf E n) n).map fun d => (k, d)) with
+    | none => rfl
+    | some r =>
+      rw [hm] at hsome
+      have := List.all_eq_true.mp hsome.symm k hkm
+      simp [hl, hd] at this
 
 end Txdbus.Obj.TreeProps
